@@ -124,6 +124,8 @@ pub struct Ctx {
     pub ops: StdMutex<Vec<OpRec>>,
     pub errors: StdMutex<Vec<String>>,
     pending: AtomicUsize,
+    /// current pool maximum (changed by M<n>), the largest maximum in force so far, and whether the maximum is being lowered right now
+    cur_max: AtomicUsize, max_ever: AtomicUsize, racy_max_change: AtomicBool,
     latch: rt::sync::Mutex<()>,
     latch_cv: rt::sync::Condvar,
     pub fail_fast: bool,
@@ -336,6 +338,33 @@ pub fn exec_op(ctx: &Arc<Ctx>, op: &Op, caller: usize, nested: bool, local: &mut
         Op::DropResumer => { if let Some(r) = local.resumer.take() { let t = ctx.tick(); if let Some(o) = local.susp_op.take() { ctx.with_op(o, |x| x.end = t); } desync::verif::log("api", "RESUME", 1, String::new()); drop(r); } return; }
         Op::WaitEv(e) => { block_on(EventFut { ctx: ctx.clone(), e: *e, sig: None }, None); return; }
         Op::Yield(n) => { for _ in 0..*n { rt::thread::yield_now(); } return; }
+        Op::SetMax(_) | Op::SetMaxQuiet(_) => {
+            let (n, quiet) = match op { Op::SetMax(n) => (*n, false), Op::SetMaxQuiet(n) => (*n, true), _ => unreachable!() };
+            let s = desync::scheduler::scheduler();
+            let old = ctx.cur_max.load(SeqCst);
+            // 'between phases': nothing queued or running, no pool thread busy (a busy thread still makes scheduling calls when its job
+            // ends) and no other caller thread; with a pool of 0 the queued work has to be carried by this caller first
+            let single = ctx.prog.callers.len() == 1;
+            if quiet && single {
+                if old == 0 { for q in 0..ctx.prog.nq { if let Some(o) = ctx.obj(q) { o.sync(|_| {}); } } }
+                ctx.wait_all();
+                while s.verif_busy_count() > 0 { rt::thread::yield_now(); }
+            }
+            let clean = quiet && single;
+            if n > ctx.max_ever.load(SeqCst) { ctx.max_ever.store(n, SeqCst); }
+            desync::verif::log("api", "SETMAX", n, String::new());
+            s.verif_set_max(n);
+            if n < old {
+                if !clean { ctx.racy_max_change.store(true, SeqCst); }
+                s.despawn_threads_if_overloaded();
+                let (owned, live) = (s.verif_thread_count(), desync::verif::thread::live_named_threads().0);
+                if clean && (owned > n || live > n) { ctx.error("C17", format!("maximum lowered from {} to {} between phases and despawn_threads_if_overloaded returned: {} pool threads owned, {} alive", old, n, owned, live)); }
+            }
+            // raising the maximum: set_max_threads starts threads for whatever is waiting in the schedule (its loop, bounded here)
+            if n > old { s.verif_kick(n + 1); }
+            ctx.cur_max.store(n, SeqCst);
+            return;
+        }
         Op::PlainDrop(n) => {
             // a value without drop glue: nothing observes its destruction, but the last owner's drop must still wait for everything queued
             let d = Desync::new(0u64);
@@ -687,7 +716,7 @@ pub fn make_ctx(prog: &Program, fail_fast: bool, touch_yield: bool) -> Arc<Ctx> 
         gates: (0..prog.ngates).map(|_| Gate { open: rt::sync::Mutex::new(false), cv: rt::sync::Condvar::new() }).collect(),
         streams: (0..prog.nstreams()).map(|_| Arc::new(StreamCore { st: StdMutex::new((Default::default(), false, None)), pushed: AtomicU64::new(0), released: AtomicBool::new(false), processed: StdMutex::new(vec![]), received: StdMutex::new(vec![]), ended_seen: AtomicBool::new(false), polls_after_gone: AtomicUsize::new(0) })).collect(),
         clock, ops: StdMutex::new(vec![]), errors: StdMutex::new(vec![]),
-        pending: AtomicUsize::new(0), latch: rt::sync::Mutex::new(()), latch_cv: rt::sync::Condvar::new(), fail_fast, touch_yield,
+        pending: AtomicUsize::new(0), cur_max: AtomicUsize::new(prog.pool), max_ever: AtomicUsize::new(prog.pool), racy_max_change: AtomicBool::new(false), latch: rt::sync::Mutex::new(()), latch_cv: rt::sync::Condvar::new(), fail_fast, touch_yield,
         threads: StdMutex::new(vec![None; prog.callers.len()]), in_try: StdMutex::new(Default::default()),
         panics_started: AtomicUsize::new(0), panics_caught: AtomicUsize::new(0), panic_base: desync::verif::thread::PANICKED_THREADS.load(SeqCst),
     })
@@ -724,7 +753,7 @@ pub fn run_program(ctx: &Arc<Ctx>) {
     for h in hs { h.join().unwrap(); }
     desync::verif::log("api", "END", 0, String::new());
     // Quiescence: with a pool, wait without touching the queues; without one, callers must carry the work
-    if prog.pool >= 1 { ctx.wait_all(); } else {
+    if ctx.cur_max.load(SeqCst) >= 1 { ctx.wait_all(); } else {
         for q in 0..prog.nq { if let Some(o) = ctx.obj(q) { o.sync(|_| {}); } let qo = { let g = ctx.qobjs[q].lock().unwrap(); g.clone() }; if let Some(o) = qo { desync::scheduler::sync(&o.queue, || {}); } }
         ctx.wait_all();
     }
@@ -747,7 +776,14 @@ pub fn run_program(ctx: &Arc<Ctx>) {
     // Teardown of the pool
     let s = desync::scheduler::scheduler();
     let n = s.verif_thread_count();
-    if n > prog.pool { ctx.error("C17", format!("{} pool threads with a maximum of {}", n, prog.pool)); }
+    // (a spawn decision that read the old maximum may add a thread after a concurrent lowering: the property quantifies over maximum
+    // changes between phases only, so the counts are checked unless the program lowered the maximum while work was in flight)
+    let racy = ctx.racy_max_change.load(SeqCst);
+    if !racy && n > ctx.cur_max.load(SeqCst) { ctx.error("C17", format!("{} pool threads with a maximum of {}", n, ctx.cur_max.load(SeqCst))); }
+    // every pool thread ever started is counted by the runtime's spawn/exit hooks: more alive at once than the largest maximum in force
+    // means a thread was created beyond the maximum (even if the scheduler never listed it)
+    let (_, peak) = desync::verif::thread::live_named_threads();
+    if !racy && peak > ctx.max_ever.load(SeqCst) { ctx.error("C17", format!("{} pool threads were alive at the same time although the maximum never exceeded {}", peak, ctx.max_ever.load(SeqCst))); }
     s.verif_set_max(0);
     // a scheduling call that read the old maximum just before may still add a thread after the first sweep (the pipes' disposal
     // object schedules late): sweep until the pool stays empty
